@@ -10,8 +10,13 @@ for mp in sorted(glob.glob(os.path.join(V, "seeded", "C*", "meta.json"))):
     sid = m["id"]
     if m.get("kind") == "benign":
         props = sorted(set(([m["property"]] if m.get("property") else []) + (m.get("false_alarms_first_evaluation") or []) + (m.get("false_alarms") or [])))
-        cat.append({"id": "seeded-" + sid, "kind": "benign", "props": props, "patch": "seeded/%s/patch.diff" % sid,
-                    "note": "behaviour-preserving refactoring %s (property %s): %s" % (sid, m.get("property"), (m.get("summary") or "")[:300])})
+        ent = {"id": "seeded-" + sid, "kind": "benign", "props": props, "patch": "seeded/%s/patch.diff" % sid,
+               "note": "behaviour-preserving refactoring %s (property %s): %s" % (sid, m.get("property"), (m.get("summary") or "")[:300])}
+        still = {p: v["violation_keys"] for p, v in (m.get("checks_run_against_repo_with_patch") or {}).items() if v.get("violation_keys")}
+        if still and m.get("false_alarms_first_evaluation") is not None:
+            # correct code that is still reported: a recorded limit (exact keys), so that any *other* alarm on it is still a self-test failure
+            ent["known_limit"] = still
+        cat.append(ent)
         continue
     det = m.get("detected_by") or []
     if not det:
